@@ -42,6 +42,9 @@ class Scratch:
         return self.path
 
     def __exit__(self, *a):
+        if os.environ.get('BVERIF_KEEP') == '1':       # diagnosis only
+            sys.stderr.write(f"kept {self.path}\n")
+            return
         shutil.rmtree(self.path, ignore_errors=True)
 
 
@@ -122,6 +125,7 @@ def coq_eval_files(files, timeout=900):
     out = {}
     with Scratch('coq') as d:
         procs = []
+        t0 = time.time()
         pending = list(files)
         running = []
         results = {}
@@ -138,6 +142,8 @@ def coq_eval_files(files, timeout=900):
                 running.append((name, start(name, text)))
             name, pr = running.pop(0)
             o, _ = pr.communicate()
+            if os.environ.get('BVERIF_TIMING') == '1':
+                sys.stderr.write(f"coq file {name}: done at +{time.time() - t0:.1f}s\n")
             if pr.returncode != 0:
                 for _, q in running:
                     q.kill()
